@@ -59,7 +59,7 @@ package gorm
 //@   loop "callback (*sync.Map).Range" invariant preloads-all-copied: forallkey(k, stmt.Preloads, has(stmt.Preloads, k) ==> has(newStmt.Preloads, k) && newStmt.Preloads[k] == stmt.Preloads[k]) [C11,C06]
 //@   ensures fresh-stmt: fresh(result) && fresh(result.Clauses) && fresh(result.Preloads) [C06,C11]
 //@   ensures every-preload-copied: forallkey(k, stmt.Preloads, has(stmt.Preloads, k) ==> has(result.Preloads, k) && result.Preloads[k] == stmt.Preloads[k]) [C11,C06]
-//@   ensures chain-state: result.Table == stmt.Table && result.TableExpr == stmt.TableExpr && result.Model == stmt.Model && result.Unscoped == stmt.Unscoped && result.Dest == stmt.Dest && result.Distinct == stmt.Distinct && result.Selects == stmt.Selects && result.Omits == stmt.Omits && result.ColumnMapping == stmt.ColumnMapping && result.Schema == stmt.Schema && result.RaiseErrorOnNotFound == stmt.RaiseErrorOnNotFound && result.SkipHooks == stmt.SkipHooks [C16,C06]
+//@   ensures chain-state: result.Table == stmt.Table && result.TableExpr == stmt.TableExpr && result.Model == stmt.Model && result.Unscoped == stmt.Unscoped && result.Dest == stmt.Dest && result.Distinct == stmt.Distinct && result.Selects == stmt.Selects && result.Omits == stmt.Omits && result.ColumnMapping == stmt.ColumnMapping && result.Schema == stmt.Schema && result.RaiseErrorOnNotFound == stmt.RaiseErrorOnNotFound && result.SkipHooks == stmt.SkipHooks [C16,C06,C15]
 //@   ensures context: result.Context == stmt.Context [C18]
 //@   ensures connpool: result.ConnPool == stmt.ConnPool [C05,C04]
 //@   ensures every-clause-copied: forallkey(k, stmt.Clauses, has(stmt.Clauses, k) ==> has(result.Clauses, k) && result.Clauses[k] == stmt.Clauses[k]) [C06,C09,C16,C08]
@@ -86,7 +86,7 @@ package gorm
 
 //@ func (*DB).Session
 //@   tags C06
-//@   modifies *db.cacheStore [C06,C18]
+//@   modifies *db.cacheStore [C06,C18,C05,C19]
 //@   ensures fresh-handle: fresh(result) && fresh(result.Config) && (!config.Initialized ==> result.clone >= 1)
 //@   ensures context-kept: config.Context == nil ==> result.Statement.Context == db.Statement.Context [C18]
 //@   ensures context-set: config.Context != nil ==> result.Statement.Context == config.Context [C18]
